@@ -180,3 +180,46 @@ let () = section register_c14
 let register_c15 reg =
   reg "c15_run_ok" (function [a; b; c; d; e] -> show_bool (c15_run_ok (zv a) (zv b) (zv c) (zv d) (zv e)) | _ -> failwith "arity")
 let () = section register_c15
+
+(* ---- C19 *)
+let dsnap_of = function L [a; c; mn; mx] -> { ds_avg = zv a; ds_cnt = zv c; ds_min = zv mn; ds_max = zv mx } | _ -> failwith "dsnap"
+let progress_of snap dur succ drop fail period =
+  { pd_period_stats = dsnap_of snap; pd_duration = zv dur; pd_succ = zv succ; pd_drop = zv drop; pd_fail = zv fail; pd_period = zv period }
+let result_of e lf ss fs started dur succ iters fail drop failed =
+  { rd_error = optv strv e; rd_logfile = strv lf; rd_succ_stats = dsnap_of ss; rd_fail_stats = dsnap_of fs;
+    rd_started = zv started; rd_duration = zv dur; rd_succ = zv succ; rd_iterations = zv iters; rd_fail = zv fail;
+    rd_drop = zv drop; rd_failed = bv failed }
+let register_c19 reg =
+  reg "render_progress" (function
+    | [on; snap; dur; succ; drop; fail; period] -> "ok " ^ show_zlist (render_progress (bv on) (progress_of snap dur succ drop fail period))
+    | _ -> failwith "arity");
+  reg "log_progress" (function
+    | [snap; dur; succ; drop; fail; period] ->
+      "[" ^ show_zlist (s_of_ocaml "progress") ^ "," ^ show_zlist (log_progress (progress_of snap dur succ drop fail period)) ^ "]"
+    | _ -> failwith "arity");
+  reg "render_result" (function
+    | [on; e; lf; ss; fs; started; dur; succ; iters; fail; drop; failed] ->
+      "ok " ^ show_zlist (render_result (bv on) (result_of e lf ss fs started dur succ iters fail drop failed))
+    | _ -> failwith "arity");
+  reg "log_result" (function
+    | [e; lf; ss; fs; started; dur; succ; iters; fail; drop; failed] ->
+      let ((f, he), st) = log_result (result_of e lf ss fs started dur succ iters fail drop failed) in
+      "[" ^ show_bool f ^ "," ^ show_bool he ^ "," ^ show_zlist st ^ "]"
+    | _ -> failwith "arity");
+  reg "render_exit" (function [on; k; d] -> "ok " ^ show_zlist (render_exit (bv on) (zv k) (zv d)) | _ -> failwith "arity");
+  reg "render_stage" (function [on; td; e] -> "ok " ^ show_zlist (render_stage (bv on) (bv td) (optv strv e)) | _ -> failwith "arity");
+  reg "summary_glue" (function
+    | [e; lf; ss; fs; ps; succ; fail; drop; ign; mf; mr; period] ->
+      (* Result.Summary()/Progress(): the verdict of C08 feeds the banner; duration() is 0 before RecordStarted *)
+      let nerrs = match e with L [] -> Z0 | _ -> z_of_int 1 in
+      let failed = match failed_verdict nerrs (zv succ) (zv fail) (zv drop) { ign = bv ign; mf = zv mf; mr = zv mr } with
+        | Ok b -> b | _ -> failwith "verdict" in
+      let iters = Z.add (Z.add (zv fail) (zv succ)) (zv drop) in
+      let started = Z.add (zv succ) (zv fail) in
+      let r = { rd_error = optv strv e; rd_logfile = strv lf; rd_succ_stats = dsnap_of ss; rd_fail_stats = dsnap_of fs;
+                rd_started = started; rd_duration = Z0; rd_succ = zv succ; rd_iterations = iters; rd_fail = zv fail;
+                rd_drop = zv drop; rd_failed = failed } in
+      let p = { pd_period_stats = dsnap_of ps; pd_duration = Z0; pd_succ = zv succ; pd_drop = zv drop; pd_fail = zv fail; pd_period = zv period } in
+      "ok [" ^ show_zlist (render_result false r) ^ "," ^ show_zlist (render_progress false p) ^ "]"
+    | _ -> failwith "arity")
+let () = section register_c19
